@@ -63,7 +63,49 @@ class Checker:
         return (sum(map(ord, value)) + self.serial) % 2 == 0
 
 
+WRAPPED_KINDS = ["pn_plain", "pn_allof", "pn_anyof", "pn_not_not", "pn_parsed_typelist", "allof_wrapped",
+                 "oneof_wrapped", "items", "property", "pattern_property", "dependency", "contains_only"]
+
+
+def wrap_value(kind, value):
+    """The value handed to the element for a wrapped kind (the string under test sits inside it)."""
+    if kind.startswith("pn_"):
+        return {value: 1}
+    if kind in ("items", "contains_only"):
+        return [value]
+    if kind in ("property", "dependency"):
+        return {"p": value}
+    if kind == "pattern_property":
+        return {"x_member": value}
+    return value
+
+
 def make_element(sut, kind, name):
+    inner = sut.Element(format=name)
+    if kind == "pn_plain":
+        return sut.Element(propertyNames=sut.String(format=name))
+    if kind == "pn_allof":
+        return sut.Element(propertyNames=sut.AllOf(sut.String(), sut.Element(format=name)))
+    if kind == "pn_anyof":
+        return sut.Element(propertyNames=sut.AnyOf(sut.Element(format=name), sut.Nothing()))
+    if kind == "pn_not_not":
+        return sut.Element(propertyNames=sut.Not(sut.Not(sut.Element(format=name))))
+    if kind == "pn_parsed_typelist":
+        return sut.parse_direct({"propertyNames": {"type": ["string", "null"], "format": name}})
+    if kind == "allof_wrapped":
+        return sut.AllOf(sut.Element(), inner)
+    if kind == "oneof_wrapped":
+        return sut.OneOf(inner, sut.Nothing())
+    if kind == "items":
+        return sut.Array(inner)
+    if kind == "contains_only":
+        return sut.Element(contains=inner)
+    if kind == "property":
+        return sut.Element(properties={"p": sut.Property(inner)})
+    if kind == "pattern_property":
+        return sut.Element(patternProperties={"^x_": inner})
+    if kind == "dependency":
+        return sut.Element(dependencies={"p": sut.Element(properties={"p": sut.Property(inner)})})
     if kind == "String":
         return sut.String(format=name)
     if kind == "Element":
@@ -104,22 +146,35 @@ def histories(ctx, sut):
                 trace.append(["register", name, checker.mode, serial])
                 continue
             kind = rng.choice(["String", "Element", "parsed_typed", "parsed_untyped"])
+            if rng.random() < 0.3:
+                kind = rng.choice(WRAPPED_KINDS)
             roll = rng.random()
-            if roll < 0.65:
+            if roll < 0.6:
                 value = gv.random_string(rng)
+            elif roll < 0.66:
+                # long strings: whatever a checker says about them is what counts
+                value = gv.random_string(rng) * rng.choice([700, 5000]) + "x" * rng.choice([0, 4097, 70000])
+                ctx.count("validate.long_string")
             else:
                 value = gv.random_value(rng, 1)
+            if kind.startswith("pn_") and not isinstance(value, str):
+                value = gv.random_string(rng)
             element = make_element(sut, kind, name)
+            inner_value = value
+            if kind in WRAPPED_KINDS:
+                value = wrap_value(kind, inner_value)
             del log[:]
             with warnings.catch_warnings(record=True) as caught:
                 warnings.simplefilter("always")
                 try:
                     element(value)
                     outcome, exc = "ok", None
+                    value = inner_value
                 except BaseException as err:  # pylint: disable=broad-except
                     if isinstance(err, (KeyboardInterrupt, SystemExit)):
                         raise
                     outcome, exc = sut.outcome_class(err), err
+                    value = inner_value
             consulted = list(log)
             ctx.evaluation()
             ctx.count("kind." + kind)
